@@ -29,6 +29,15 @@ func init() {
 		"vNondetBytes":  hNondetBytes,
 		"vNondetString": hNondetString,
 		"vNondetArray":  hNondetArray,
+		// vHavocBytes(n): n bytes of unconstrained content that is not part of
+		// the witness (dirty memory)
+		"vHavocBytes": func(in *Interp, th *Thread, a []Value, fn *ssa.Function) (Value, callStatus) {
+			n := in.concreteInt(a[0], "vHavocBytes length")
+			arr := in.ts.Var(in.freshName("havoc")+"_a", ArrSort)
+			nn := in.bv64(n)
+			obj := in.newByteObj(arr, nn, n)
+			return BytesV{obj, in.bv64(0), nn, nn}, csDone
+		},
 		"vNondetBytesC": func(in *Interp, th *Thread, a []Value, fn *ssa.Function) (Value, callStatus) {
 			v, st := hNondetBytes(in, th, a, fn)
 			b := v.(BytesV)
